@@ -8,10 +8,13 @@ import "context"
 // most once.
 func vC12Reuse(L int) {
 	op := &vCatalog[vChoice("entry", len(vCatalog))]
-	if op.nsrc != 1 {
+	if op.nsrc > 1 {
 		vAssume(false)
 	}
-	in := vLegalScript("s", L)
+	var in []vStep
+	if op.nsrc == 1 {
+		in = vLegalScript("s", L)
+	}
 	p := &vProbe{name: "src", cold: true, script: in}
 	c := &vCtx{src: []Observable[int64]{p}, L: L}
 	pipe := op.mk(c)
